@@ -371,7 +371,8 @@ def c16_class(cls, ev):
             if q2 >= 1 and inp[q2 - 1] == 92 and one_error and toks[0]["t"] == inp:
                 return "backslash-before-closing-quote"
             starts = any(inp[1:1 + len(d)] == list(d) for d in (b"@[", b"^^type:"))
-            if starts and one_error and toks[0]["t"] == inp[:q2 + 1]:
+            # only predicates and bounds: a LITERAL whose text starts with a delimiter is lexed as one token
+            if starts and kind != "LITERAL" and one_error and toks[0]["t"] == inp[:q2 + 1]:
                 return "quoted-text-starts-with-delimiter"
         if kind == "NODE" and 62 in inp[:inp.index(60)] if 60 in inp else False:
             if one_error and toks[0]["t"] == inp[:inp.index(62) + 1]:
